@@ -24,13 +24,39 @@ func init() {
 	simkit.Register(&simkit.Prop{
 		ID:             "C32",
 		Desc:           "synced block headers carry signatures of more than C consensus peers",
-		Rule:           "a run = a syncing node on a VBFT-genesis chain (N=4,C=1 or N=7,C=2) that receives 4..14 next-height headers / blocks from a Byzantine sync peer as BYTES (real header codec / p2p Block message codec) through AddHeaders or AddBlock; the header content is a well-formed VBFT block of the right height, the signer section is tape-chosen: C+1 or more distinct members with valid signatures, exactly C valid signers plus members listed without / with invalid / with foreign signatures, one member listed twice, a non-member, signatures in another order than keys, fewer signatures than keys. Oracle: the ledger ACCEPTS (header height or block height advances, header retrievable) only if at least C+1 DISTINCT members of the chain configuration governing that height have a valid signature over the header hash. non-trivial = >= 1 accepted and >= 1 rejected; distinct = distinct event-trace hash",
+		Rule:           "a run = a syncing node on a VBFT-genesis chain (N=4,C=1 or N=7,C=2) that receives 4..14 next-height headers / blocks from a Byzantine sync peer as BYTES (real header codec / p2p Block message codec) through AddHeaders or AddBlock; the header content is a well-formed VBFT block of the right height, the signer section is tape-chosen: C+1 or more distinct members with valid signatures, exactly C valid signers plus members listed without / with invalid / with foreign signatures, one member listed twice, a non-member, signatures in another order than keys, fewer signatures than keys. Oracle: the ledger ACCEPTS (header height or block height advances, header retrievable) only if at least C+1 DISTINCT members of the chain configuration in force for that height (the latest one announced by an accepted header below it) have a valid signature over the header hash. non-trivial = >= 1 accepted and >= 1 rejected; distinct = distinct event-trace hash",
 		Real:           []string{"core/store/ledgerstore AddHeaders / AddBlock / verifyHeader", "core/signature.VerifyMultiSignature", "core/types header codec, p2pserver/message/types Block message codec", "consensus/vbft/config block info", "core/genesis with a VBFT configuration"},
 		Stub:           []string{"Byzantine sync peer and honest block source (harness builds VBFT blocks by hand)", "sync driver"},
 		Assumptions:    []string{"the simulator dimension is forgery by a faulty sync peer; the chain configuration stays the genesis one (no epoch change)"},
-		ExpectedProbes: []string{"accepted", "rejected"},
+		ExpectedProbes: []string{"accepted", "rejected", "epoch_changed"},
 		Run:            runC32,
 	})
+}
+
+// c32Cfg is a chain configuration in force: its peers, its C and the height of
+// the header that announced it.
+type c32Cfg struct {
+	height uint32
+	peers  []*account.Account
+	c      int
+}
+
+func (g *c32Cfg) member(id string) bool {
+	for _, p := range g.peers {
+		if vconfig.PubkeyID(p.PublicKey) == id {
+			return true
+		}
+	}
+	return false
+}
+
+func c32ChainConfig(peers []*account.Account, cf int, view uint32) *vconfig.ChainConfig {
+	cc := &vconfig.ChainConfig{Version: 1, View: view, N: uint32(len(peers)), C: uint32(cf), BlockMsgDelay: 10000, HashMsgDelay: 10000, PeerHandshakeTimeout: 10, MaxBlockChangeView: 100000}
+	for i, p := range peers {
+		cc.Peers = append(cc.Peers, &vconfig.PeerConfig{Index: uint32(i + 1), ID: vconfig.PubkeyID(p.PublicKey)})
+		cc.PosTable = append(cc.PosTable, uint32(i+1), uint32(i+1))
+	}
+	return cc
 }
 
 func runC32(c *simkit.Ctx) {
@@ -45,7 +71,10 @@ func runC32(c *simkit.Ctx) {
 		for i := 0; i < n; i++ {
 			peers = append(peers, account.NewAccount(""))
 		}
-		outsider := account.NewAccount("")
+		var attackers []*account.Account
+		for i := 0; i < 7; i++ {
+			attackers = append(attackers, account.NewAccount(""))
+		}
 		world.VbftConfig(peers, uint32(cf))
 		books, err := config.DefConfig.GetBookkeepers()
 		c.Must(err, "bookkeepers")
@@ -59,91 +88,42 @@ func runC32(c *simkit.Ctx) {
 		c.Must(st.InitLedgerStoreWithGenesisBlock(gen, books), "init ledger")
 		ledger.DefLedger = &ledger.Ledger{LedgerStore: st}
 
-		member := map[string]bool{}
-		for _, p := range peers {
-			member[vconfig.PubkeyID(p.PublicKey)] = true
-		}
+		gov := &c32Cfg{height: 0, peers: peers, c: cf} // governs the next header
+		var old []*c32Cfg                              // superseded configurations
+		var pending []*types.Header                    // accepted headers whose block is not stored yet
 		accepted, rejected := 0, 0
 		ts := gen.Header.Timestamp
-		steps := 4 + t.Choose(11)
-		for i := 0; i < steps; i++ {
-			h := st.GetCurrentBlockHeight() + 1
-			useHeaders := t.Bool() && st.GetCurrentHeaderHeight() == st.GetCurrentBlockHeight()
+		tipHash := func() common.Uint256 {
+			if len(pending) > 0 {
+				return pending[len(pending)-1].Hash()
+			}
+			return st.GetCurrentBlockHash()
+		}
+		// mkHeader: a well-formed unsigned VBFT header on top of prev at height h
+		mkHeader := func(h uint32, prev common.Uint256, info *vconfig.VbftBlockInfo) *types.Header {
 			ts += uint32(1 + t.Choose(10))
-			info := &vconfig.VbftBlockInfo{Proposer: uint32(1 + t.Choose(n)), VrfValue: t.Bytes(8), VrfProof: t.Bytes(8), LastConfigBlockNum: 0}
 			payload, _ := json.Marshal(info)
-			hdr := &types.Header{Version: 0, PrevBlockHash: st.GetCurrentBlockHash(), TransactionsRoot: common.UINT256_EMPTY,
-				BlockRoot: st.GetBlockRootWithNewTxRoots(h, []common.Uint256{common.UINT256_EMPTY}), Timestamp: ts, Height: h,
+			cur := st.GetCurrentBlockHeight()
+			return &types.Header{Version: 0, PrevBlockHash: prev, TransactionsRoot: common.UINT256_EMPTY,
+				BlockRoot: st.GetBlockRootWithNewTxRoots(cur+1, make([]common.Uint256, h-cur)), Timestamp: ts, Height: h,
 				ConsensusData: uint64(t.Choose(1 << 20)), ConsensusPayload: payload}
+		}
+		signWith := func(hdr *types.Header, who []*account.Account) {
 			hash := hdr.Hash()
-			sign := func(a *account.Account) []byte {
+			for _, a := range who {
 				sg, err := signature.Sign(a, hash[:])
 				c.Must(err, "sign header")
-				return sg
+				hdr.Bookkeepers = append(hdr.Bookkeepers, a.PublicKey)
+				hdr.SigData = append(hdr.SigData, sg)
 			}
-			perm := t.Perm(n)
-			kind := t.Pick(3, 3, 2, 2, 2, 2, 2, 2)
-			name := []string{"c+1-valid", "c-valid-plus-unsigned-members", "c-valid-plus-invalid-signatures", "member-listed-twice", "non-member", "signatures-reordered", "c-valid-plus-foreign-signatures", "all-valid"}[kind]
-			switch kind {
-			case 0, 7:
-				k := cf + 1
-				if kind == 7 {
-					k = n
-				}
-				for _, j := range perm[:k] {
-					hdr.Bookkeepers = append(hdr.Bookkeepers, peers[j].PublicKey)
-					hdr.SigData = append(hdr.SigData, sign(peers[j]))
-				}
-			case 1: // C valid signers first, further members only listed
-				for idx, j := range perm[:cf+1+t.Choose(n-cf)] {
-					hdr.Bookkeepers = append(hdr.Bookkeepers, peers[j].PublicKey)
-					if idx < cf {
-						hdr.SigData = append(hdr.SigData, sign(peers[j]))
-					}
-				}
-			case 2:
-				for idx, j := range perm[:cf+1] {
-					hdr.Bookkeepers = append(hdr.Bookkeepers, peers[j].PublicKey)
-					sg := sign(peers[j])
-					if idx >= cf {
-						sg[len(sg)-1] ^= 0x40
-					}
-					hdr.SigData = append(hdr.SigData, sg)
-				}
-			case 3:
-				for k := 0; k < cf+1; k++ {
-					hdr.Bookkeepers = append(hdr.Bookkeepers, peers[perm[0]].PublicKey)
-					hdr.SigData = append(hdr.SigData, sign(peers[perm[0]]))
-				}
-			case 4:
-				for _, j := range perm[:cf] {
-					hdr.Bookkeepers = append(hdr.Bookkeepers, peers[j].PublicKey)
-					hdr.SigData = append(hdr.SigData, sign(peers[j]))
-				}
-				hdr.Bookkeepers = append(hdr.Bookkeepers, outsider.PublicKey)
-				hdr.SigData = append(hdr.SigData, sign(outsider))
-			case 5:
-				for _, j := range perm[:cf+1] {
-					hdr.Bookkeepers = append(hdr.Bookkeepers, peers[j].PublicKey)
-				}
-				for k := cf; k >= 0; k-- {
-					hdr.SigData = append(hdr.SigData, sign(peers[perm[k]]))
-				}
-			case 6:
-				for idx, j := range perm[:cf+1] {
-					hdr.Bookkeepers = append(hdr.Bookkeepers, peers[j].PublicKey)
-					if idx < cf {
-						hdr.SigData = append(hdr.SigData, sign(peers[j]))
-					} else {
-						hdr.SigData = append(hdr.SigData, sign(outsider))
-					}
-				}
-			}
-			// independent count of distinct members with a valid signature
+		}
+		// validMembers: distinct members of cfg with a valid signature on hdr
+		validMembers := func(hdr *types.Header, g *c32Cfg) int {
+			hash := hdr.Hash()
 			valid := map[string]bool{}
 			for _, bk := range hdr.Bookkeepers {
 				id := vconfig.PubkeyID(bk)
-				if !member[id] {
+				if !g.member(id) {
 					continue
 				}
 				for _, sg := range hdr.SigData {
@@ -153,43 +133,212 @@ func runC32(c *simkit.Ctx) {
 					}
 				}
 			}
-			enough := len(valid) >= cf+1
-			via := "AddBlock"
-			var ok bool
-			if useHeaders {
-				via = "AddHeaders"
-				// headers travel as bytes
-				sink := common.NewZeroCopySink(nil)
-				hdr.Serialization(sink)
-				dec, err := types.HeaderFromRawBytes(sink.Bytes())
-				c.Must(err, "decode own header")
-				before := st.GetCurrentHeaderHeight()
-				err = st.AddHeaders([]*types.Header{dec})
-				ok = err == nil && st.GetCurrentHeaderHeight() == before+1
-			} else {
-				blk := &types.Block{Header: hdr}
-				dec, root, _ := blockWire(c, blk, common.UINT256_EMPTY)
+			return len(valid)
+		}
+		// deliver: the header (or a block with it) reaches the ledger; reports acceptance
+		deliver := func(hdr *types.Header, asBlock bool) (bool, string) {
+			if asBlock {
+				dec, root, _ := blockWire(c, &types.Block{Header: hdr}, common.UINT256_EMPTY)
 				before := st.GetCurrentBlockHeight()
 				err := st.AddBlock(dec, nil, root)
-				ok = err == nil && st.GetCurrentBlockHeight() == before+1
+				return err == nil && st.GetCurrentBlockHeight() == before+1 && st.GetCurrentBlockHash() == hdr.Hash(), "AddBlock"
 			}
-			c.Logf("height %d N=%d C=%d via=%s kind=%s listed=%d sigs=%d distinct-valid-members=%d -> accepted=%v", h, n, cf, via, name, len(hdr.Bookkeepers), len(hdr.SigData), len(valid), ok)
-			if ok {
-				accepted++
-				c.Probe("accepted")
-				if !enough {
-					c.FailSoft("header-accepted-with-at-most-C-valid-signers", name, "%s accepted the header of height %d with valid signatures of only %d distinct consensus peers (N=%d, C=%d, need %d); %d bookkeepers listed, %d signatures",
-						via, h, len(valid), n, cf, cf+1, len(hdr.Bookkeepers), len(hdr.SigData))
+			sink := common.NewZeroCopySink(nil)
+			hdr.Serialization(sink)
+			dec, err := types.HeaderFromRawBytes(sink.Bytes())
+			c.Must(err, "decode own header")
+			before := st.GetCurrentHeaderHeight()
+			err = st.AddHeaders([]*types.Header{dec})
+			return err == nil && st.GetCurrentHeaderHeight() == before+1, "AddHeaders"
+		}
+		noteAccepted := func(hdr *types.Header, viaBlock bool, info *vconfig.VbftBlockInfo, newPeers []*account.Account) {
+			accepted++
+			c.Probe("accepted")
+			if !viaBlock {
+				pending = append(pending, hdr)
+			}
+			if info.NewChainConfig != nil && newPeers != nil {
+				old = append(old, gov)
+				gov = &c32Cfg{height: hdr.Height, peers: newPeers, c: int(info.NewChainConfig.C)}
+				c.Probe("epoch_changed")
+			}
+		}
+		steps := 5 + t.Choose(14)
+		for i := 0; i < steps; i++ {
+			// complete a pending header's block now and then (always when three are pending)
+			if len(pending) > 0 && (len(pending) >= 3 || t.Prob(1, 2)) {
+				hdr := pending[0]
+				ok, _ := deliver(hdr, true)
+				c.Logf("block for synced header %d -> stored=%v", hdr.Height, ok)
+				if !ok {
+					c.Probe("block_for_synced_header_refused")
+					return
 				}
-				if useHeaders {
-					// complete the block so the chain moves on
-					blk := &types.Block{Header: hdr}
-					dec, root, _ := blockWire(c, blk, common.UINT256_EMPTY)
-					if err := st.AddBlock(dec, nil, root); err != nil {
-						c.Logf("block for accepted header refused: %v", err)
-						return
+				pending = pending[1:]
+				continue
+			}
+			g := gov
+			gn := len(g.peers)
+			h := st.GetCurrentBlockHeight() + uint32(len(pending)) + 1
+			asBlock := len(pending) == 0 && t.Bool()
+			info := &vconfig.VbftBlockInfo{Proposer: uint32(1 + t.Choose(gn)), VrfValue: t.Bytes(8), VrfProof: t.Bytes(8), LastConfigBlockNum: g.height}
+			var newPeers []*account.Account
+			if t.Prob(1, 5) {
+				// epoch change: some peers retire, new ones join
+				keep := t.Perm(gn)[:gn-1-t.Choose(2)]
+				for _, k := range keep {
+					newPeers = append(newPeers, g.peers[k])
+				}
+				for len(newPeers) < 4 || (len(newPeers) < 7 && t.Bool()) {
+					newPeers = append(newPeers, account.NewAccount(""))
+				}
+				info.NewChainConfig = c32ChainConfig(newPeers, (len(newPeers)-1)/3, uint32(len(old)+2))
+				info.LastConfigBlockNum = h // as the real proposer does for a configuration block
+			}
+			perm := t.Perm(gn)
+			kind := t.Pick(3, 3, 2, 2, 2, 2, 2, 2, 3, 3)
+			name := []string{"c+1-valid", "c-valid-plus-unsigned-members", "c-valid-plus-invalid-signatures", "member-listed-twice", "non-member", "signatures-reordered", "c-valid-plus-foreign-signatures", "all-valid", "retired-configuration-signers", "rejected-forged-configuration-then-its-signers"}[kind]
+			if kind == 8 && len(old) == 0 {
+				kind, name = 0, "c+1-valid"
+			}
+			var hdr *types.Header
+			switch kind {
+			case 8:
+				// the header names a superseded configuration and is signed by that one's peers
+				og := old[t.Choose(len(old))]
+				info.LastConfigBlockNum = og.height
+				info.NewChainConfig, newPeers = nil, nil
+				hdr = mkHeader(h, tipHash(), info)
+				var who []*account.Account
+				for _, p := range og.peers { // retired peers first
+					if !g.member(vconfig.PubkeyID(p.PublicKey)) {
+						who = append(who, p)
 					}
 				}
+				for _, p := range og.peers {
+					if g.member(vconfig.PubkeyID(p.PublicKey)) && len(who) < og.c+1 {
+						who = append(who, p)
+					}
+				}
+				signWith(hdr, who)
+			case 9:
+				// step 1: a header announcing the attackers as the next configuration, carried by too few
+				// valid signatures - for the next height, or as another block for a height whose genuine
+				// header is already synced; it must be refused. step 2: a header naming that height as its
+				// configuration, signed by the attackers
+				x, prev := h, tipHash()
+				viaBlock := asBlock
+				if len(pending) > 0 && t.Bool() {
+					x, prev, viaBlock = pending[0].Height, st.GetCurrentBlockHash(), true
+				}
+				atk := attackers[:4+t.Choose(4)]
+				finfo := &vconfig.VbftBlockInfo{Proposer: 1, VrfValue: t.Bytes(8), VrfProof: t.Bytes(8), LastConfigBlockNum: g.height,
+					NewChainConfig: c32ChainConfig(atk, (len(atk)-1)/3, 99)}
+				forged := mkHeader(x, prev, finfo)
+				var who []*account.Account
+				for _, j := range perm[:t.Choose(g.c+1)] {
+					who = append(who, g.peers[j])
+				}
+				signWith(forged, append(who, atk[0]))
+				ok1, via1 := deliver(forged, viaBlock)
+				c.Logf("height %d forged configuration header via %s with %d valid member signatures -> accepted=%v", x, via1, len(who), ok1)
+				if ok1 {
+					accepted++
+					c.FailSoft("header-accepted-with-at-most-C-valid-signers", "forged-configuration", "%s accepted a header of height %d announcing a new configuration with valid signatures of only %d governing peers (C=%d)", via1, x, len(who), g.c)
+					return
+				}
+				rejected++
+				c.Probe("rejected")
+				info.LastConfigBlockNum = x
+				info.NewChainConfig, newPeers = nil, nil
+				hdr = mkHeader(h, tipHash(), info)
+				signWith(hdr, atk)
+			default:
+				hdr = mkHeader(h, tipHash(), info)
+				hash := hdr.Hash()
+				sign := func(a *account.Account) []byte {
+					sg, err := signature.Sign(a, hash[:])
+					c.Must(err, "sign header")
+					return sg
+				}
+				cfv := g.c
+				switch kind {
+				case 0, 7:
+					k := cfv + 1
+					if kind == 7 {
+						k = gn
+					}
+					for _, j := range perm[:k] {
+						hdr.Bookkeepers = append(hdr.Bookkeepers, g.peers[j].PublicKey)
+						hdr.SigData = append(hdr.SigData, sign(g.peers[j]))
+					}
+				case 1: // C valid signers first, further members only listed
+					for idx, j := range perm[:cfv+1+t.Choose(gn-cfv)] {
+						hdr.Bookkeepers = append(hdr.Bookkeepers, g.peers[j].PublicKey)
+						if idx < cfv {
+							hdr.SigData = append(hdr.SigData, sign(g.peers[j]))
+						}
+					}
+				case 2:
+					for idx, j := range perm[:cfv+1] {
+						hdr.Bookkeepers = append(hdr.Bookkeepers, g.peers[j].PublicKey)
+						sg := sign(g.peers[j])
+						if idx >= cfv {
+							sg[len(sg)-1] ^= 0x40
+						}
+						hdr.SigData = append(hdr.SigData, sg)
+					}
+				case 3:
+					for k := 0; k < cfv+1; k++ {
+						hdr.Bookkeepers = append(hdr.Bookkeepers, g.peers[perm[0]].PublicKey)
+						hdr.SigData = append(hdr.SigData, sign(g.peers[perm[0]]))
+					}
+				case 4: // C valid members, then a non-member; sometimes only the non-member signs
+					onlyOutsider := t.Bool()
+					for _, j := range perm[:cfv] {
+						hdr.Bookkeepers = append(hdr.Bookkeepers, g.peers[j].PublicKey)
+						if !onlyOutsider {
+							hdr.SigData = append(hdr.SigData, sign(g.peers[j]))
+						}
+					}
+					if onlyOutsider { // one more listed member so that C+1 members are listed
+						hdr.Bookkeepers = append(hdr.Bookkeepers, g.peers[perm[cfv]].PublicKey)
+					}
+					hdr.Bookkeepers = append(hdr.Bookkeepers, attackers[0].PublicKey)
+					hdr.SigData = append(hdr.SigData, sign(attackers[0]))
+				case 5:
+					for _, j := range perm[:cfv+1] {
+						hdr.Bookkeepers = append(hdr.Bookkeepers, g.peers[j].PublicKey)
+					}
+					for k := cfv; k >= 0; k-- {
+						hdr.SigData = append(hdr.SigData, sign(g.peers[perm[k]]))
+					}
+				case 6:
+					for idx, j := range perm[:cfv+1] {
+						hdr.Bookkeepers = append(hdr.Bookkeepers, g.peers[j].PublicKey)
+						if idx < cfv {
+							hdr.SigData = append(hdr.SigData, sign(g.peers[j]))
+						} else {
+							hdr.SigData = append(hdr.SigData, sign(attackers[1]))
+						}
+					}
+				}
+			}
+			valid := validMembers(hdr, g)
+			enough := valid >= g.c+1
+			ok, via := deliver(hdr, asBlock)
+			c.Logf("height %d N=%d C=%d (configuration of height %d) via=%s kind=%s new-config=%v names-config=%d listed=%d sigs=%d distinct-valid-members=%d -> accepted=%v",
+				h, gn, g.c, g.height, via, name, info.NewChainConfig != nil, info.LastConfigBlockNum, len(hdr.Bookkeepers), len(hdr.SigData), valid, ok)
+			if ok {
+				if !enough {
+					accepted++
+					c.FailSoft("header-accepted-with-at-most-C-valid-signers", name, "%s accepted the header of height %d with valid signatures of only %d distinct peers of the configuration in force (announced at height %d: N=%d, C=%d, need %d); %d bookkeepers listed, %d signatures, the header names the configuration of height %d",
+						via, h, valid, g.height, gn, g.c, g.c+1, len(hdr.Bookkeepers), len(hdr.SigData), info.LastConfigBlockNum)
+					// a recorded finding: the model follows the ledger's chain and the run goes on
+					c.Probe("continued_after_known_finding")
+					accepted--
+				}
+				noteAccepted(hdr, asBlock, info, newPeers)
 			} else {
 				rejected++
 				c.Probe("rejected")
